@@ -337,7 +337,12 @@ KindAt(p, j) ==
   IF p[j].g \in {"app1", "app2", "papp"} /\ p[j + 1].g = "var"
     THEN (IF p[j].g = "app1" THEN "app1v" ELSE IF p[j].g = "app2" THEN "app2v" ELSE "pappv")
     ELSE p[j].g
-RhsKinds(p, E, r) == {KindAt(p, j) : j \in {x \in r..(E[r] - 1) : p[x].g \in Impure}}
+\* only what the right-hand side does when it is evaluated counts: nodes inside a lambda body or inside the body of a
+\* recursive function definition run later (if at all), when the closure is called
+UnderLambda(p, E, r, j) ==
+  \E i \in r..(j - 1) : \/ (p[i].g \in {"lam1", "lam2", "lam11"} /\ j < E[i])
+                          \/ (p[i].g = "recf" /\ j < E[E[i + 1]])
+RhsKinds(p, E, r) == {KindAt(p, j) : j \in {x \in r..(E[r] - 1) : p[x].g \in Impure /\ ~UnderLambda(p, E, r, x)}}
 Masks0(D) == IF Cardinality(D) <= 3 THEN (SUBSET D) \ {{}} ELSE {D} \cup {{x} : x \in D}
 
 \* first-order rendering of a value (closures and partial applications are opaque)
